@@ -231,17 +231,17 @@ def rand_layout(rng, kind=None, big=False, known_ok=True):
     return kind, entries, req
 
 
-def huge_snappy_job(rng):
+def huge_snappy_job(rng, codec="snappy"):
     """one snappy batch of 39..43 KiB of incompressible values, framed as a single xerial chunk or in blocks above 32 KiB
     (32 KiB is only the default block size of the usual writer; the format allows any)"""
     offs = Offs(rng, rng.choice([0, 7, 1 << 33]))
     inner = [("plain", offs.take(), None if rng.random() < 0.5 else b"k%d" % i, bytes(rng.getrandbits(8) for _ in range(rng.randint(13200, 14500))))
              for i in range(3)]
-    entries = [("wrap", "snappy", inner[-1][1], inner)]
-    req = rng.choice([inner[0][1], inner[1][1], inner[-1][1]])
-    chunk = rng.choice([None, None, 39000, 49152])
+    entries = [("wrap", codec, inner[-1][1], inner)]
+    req = rng.choice([inner[0][1], inner[1][1], inner[-1][1], inner[-1][1]])
+    chunk = rng.choice([None, None, 39000, 49152]) if codec == "snappy" else None
     data, lens = encode_layout(entries, chunk, False)
-    return ("huge_snappy", entries, req, len(data), chunk, False)
+    return ("huge_" + codec, entries, req, len(data), chunk, False)
 
 
 def sample_cut(rng, lens):
@@ -442,6 +442,9 @@ def gen(rng, tier):
             jobs.append(admit(rng, (kind, entries, req, sample_cut(rng, lens), chunk, copies)))
         if ci % 7 == 5 and ci < (7 * 3 if quick else 7 * 24):     # (stride 7: spread over the 16 workers)     # (the model's snappy decoder is slow on chunks of this size: a handful per run)
             jobs.insert(rng.randint(0, len(jobs)), huge_snappy_job(rng))
+        if ci % 7 == 2 and ci < (7 * 4 if quick else 7 * 40):
+            # the same for gzip: more than 32 KiB of COMPRESSED input (a decompressor's internal buffer size), read from any offset
+            jobs.insert(rng.randint(0, len(jobs)), huge_snappy_job(rng, "gzip"))
         cases.append(scripted_case(rng, jobs))
     # (c) the reference broker's own replies
     for _ in range(200 if quick else 1500):
